@@ -101,10 +101,20 @@ theorem set_changes_only_on_config (p : Params) (s : State) (hd : Header) (set s
     set' = set ∨ ∃ c, hd.newCfg = some c ∧ set' = dedupKeys c := by
   by_cases h0 : hd.height = 0
   · simp [verifyHeader, h0] at h; exact Or.inl h.symm
-  · obtain ⟨-, -, -, e⟩ := verifyHeader_ok p s hd set set' h0 h
+  · obtain ⟨-, -, -, e, -⟩ := verifyHeader_ok p s hd set set' h0 h
     cases hc : hd.newCfg with
     | none => rw [hc] at e; exact Or.inl e
     | some c => rw [hc] at e; exact Or.inr ⟨c, rfl, e⟩
+
+/-- **A header whose consensus payload does not decode is never accepted** (non-genesis), however well it is
+signed; `VbftBlock` is consulted after the signature check, so the announced configuration of an accepted header is
+always the decoded one. -/
+theorem malformed_payload_rejected (p : Params) (s : State) (hd : Header) (set : List Key) (h0 : hd.height ≠ 0)
+    (hbad : hd.payloadOk = false) : ∀ set', verifyHeader p s hd set ≠ .ok set' := by
+  intro set' h
+  obtain ⟨-, -, -, -, hp⟩ := verifyHeader_ok p s hd set set' h0 h
+  rw [hbad] at hp
+  cases hp
 
 /-- The genesis header is exempt: height 0 is accepted as is and leaves the set alone. -/
 theorem genesis_exempt (p : Params) (s : State) (hd : Header) (set : List Key) (h0 : hd.height = 0) :
